@@ -199,7 +199,7 @@ def enumerate_paths(fn, start=None, stop=None, limit=5000, follow_back=False):
             for i, s in live:
                 q = p.copy()
                 if leaf is not None:
-                    q.atoms.extend(conjuncts(leaf, i == 0))
+                    q.atoms.extend(conjuncts(leaf, i == 0, fn))
                 if blk.get("term", -1) >= 0:
                     q.decisions[blk["term"]] = i
                 stack.append((s, q, seen | {b}))
